@@ -1368,6 +1368,22 @@ class TaskScenario(ScenarioData):
         remaining_effort = effort
         current_slot = self.currentSlotIdx if self.currentSlotIdx is not None else 0
 
+        if self.property.get("forward", self.scenarioIdx) is False:
+            # A backward task is placed from its deadline towards the project start: look that
+            # way (looking ahead of the deadline made the choice depend on how far the slot
+            # tables happen to reach). The candidate that needs the shortest stretch before the
+            # deadline wins; the stretch is returned as an instant so that "earlier is better"
+            # holds for both directions.
+            cursor = current_slot
+            while remaining_effort > 0 and current_slot >= 0:
+                if res_scenario.available(current_slot):
+                    remaining_effort -= effort_per_slot
+                current_slot -= 1
+            if remaining_effort > 0:
+                return None  # Cannot complete before the deadline
+            stretch: datetime = self.project["start"] + timedelta(seconds=slot_duration * (cursor - current_slot))
+            return stretch
+
         # Safety limit to prevent infinite loops
         max_slots = len(res_scenario.scoreboard) if res_scenario.scoreboard else 1000
 
